@@ -24,11 +24,12 @@ Proof.
 Qed.
 
 Lemma wait_m_progress prog s t k : Inv1 s ->
-  (pcs s t = CWait k \/ pcs s t = GWait k \/ (exists r, pcs s t = UWaitM r k) \/ (exists todo, pcs s t = IWalk (k :: todo))) ->
+  (pcs s t = CWait k \/ (exists j, pcs s t = AWait k j) \/ pcs s t = GWait k \/ (exists r, pcs s t = UWaitM r k) \/
+   (exists todo, pcs s t = IWalk (k :: todo))) ->
   progress prog s.
 Proof.
   intros HI H. destruct (mlock s k) as [u|] eqn:Em; [eapply holder_m_progress; eassumption|].
-  destruct H as [E|[E|[[r E]|[todo E]]]]; exists t; unfold step; rewrite E, Em; eexists; reflexivity.
+  destruct H as [E|[[j E]|[E|[[r E]|[todo E]]]]]; exists t; unfold step; rewrite E, Em; eexists; reflexivity.
 Qed.
 
 (** Rank 2: the holder of a registration's unregMu waits at most for a meter.mtx. *)
@@ -36,7 +37,7 @@ Lemma holder_u_progress prog s r u : Inv1 s -> ulock s r = Some u -> progress pr
 Proof.
   intros HI H. apply (i_ulock _ HI) in H. destruct (pcs s u) eqn:E; cbn in H; try discriminate;
     try (enabled_by u E).
-  eapply wait_m_progress; [exact HI|]. right. right. left. eexists. exact E.
+  eapply wait_m_progress; [exact HI|]. right. right. right. left. eexists. exact E.
 Qed.
 
 Lemma wait_u_progress prog s t r : Inv1 s ->
@@ -55,7 +56,7 @@ Proof.
   - enabled_by u E.
   - enabled_by u E.
   - destruct todo as [|k todo]; [enabled_by u E|].
-    eapply wait_m_progress; [exact HI|]. right. right. right. eexists. exact E.
+    eapply wait_m_progress; [exact HI|]. right. right. right. right. eexists. exact E.
   - enabled_by u E.
   - enabled_by u E.
   - destruct rs as [|r rs]; [enabled_by u E|].
@@ -76,7 +77,7 @@ Proof.
   - eapply wait_p_progress; [exact HI|]. right. exact E.
   - enabled_by u E.
   - destruct todo as [|k todo]; [enabled_by u E|].
-    eapply wait_m_progress; [exact HI|]. right. right. right. eexists. exact E.
+    eapply wait_m_progress; [exact HI|]. right. right. right. right. eexists. exact E.
   - enabled_by u E.
   - enabled_by u E.
   - destruct rs as [|r rs]; [enabled_by u E|].
@@ -92,6 +93,7 @@ Proof.
     + exfalso. apply Hn. right. auto.
     + exists t. unfold step, start. rewrite E, Ep. eexists. reflexivity.
     + exists t. unfold step, start. rewrite E, Ep. eexists. reflexivity.
+    + exists t. unfold step, start. rewrite E, Ep. eexists. reflexivity.
     + exists t. unfold step, start. rewrite E, Ep. destruct (ist s i); eexists; reflexivity.
     + exists t. unfold step, start. rewrite E, Ep. destruct (mcreated s k); eexists; reflexivity.
     + exists t. unfold step, start. rewrite E, Ep. destruct (unreg s r); eexists; reflexivity.
@@ -101,14 +103,16 @@ Proof.
   - enabled_by t E.
   - eapply wait_m_progress; [exact HI|]. left. exact E.
   - enabled_by t E.
+  - eapply wait_m_progress; [exact HI|]. right. left. eexists. exact E.
   - enabled_by t E.
-  - eapply wait_m_progress; [exact HI|]. right. left. exact E.
+  - enabled_by t E.
+  - eapply wait_m_progress; [exact HI|]. right. right. left. exact E.
   - enabled_by t E.
   - (* UWait *) destruct (unreg s r) eqn:Er;
       try (eapply wait_u_progress; [exact HI|]; left; exact E);
       exists t; unfold step; rewrite E, Er; eexists; reflexivity.
   - enabled_by t E.
-  - eapply wait_m_progress; [exact HI|]. right. right. left. eexists. exact E.
+  - eapply wait_m_progress; [exact HI|]. right. right. right. left. eexists. exact E.
   - enabled_by t E.
   - enabled_by t E.
   - (* IOnce *) destruct (once s) as [|u|] eqn:Eo.
